@@ -25,6 +25,7 @@
 #include <osmium/io/gzip_compression.hpp>
 
 #include <atomic>
+#include <csignal>
 #include <cstdint>
 #include <fcntl.h>
 #include <fstream>
@@ -288,7 +289,31 @@ static void run_roundtrip(const json& c, oio::file_compression comp, const std::
     compare(2000, exp, payload, run_direct(bufs, payload, true, 2000), "round trip, buffer decompressor");
 }
 
+// A decompressor that never reaches the end of its input (e.g. a read() loop that makes no progress) must not block
+// the check: every case runs under a watchdog of VH_WATCHDOG seconds (default 20; a normal case takes milliseconds).
+static void on_alarm(int) {
+    static const char msg[] = "HANG: watchdog expired, the decompressor did not finish\n";
+    (void)!::write(2, msg, sizeof(msg) - 1);
+    ::_exit(96);
+}
+
+struct Watchdog {
+    Watchdog() {
+        static const unsigned int secs = [] {
+            const char* e = std::getenv("VH_WATCHDOG");
+            const int v = e ? std::atoi(e) : 0;
+            return static_cast<unsigned int>(v > 0 ? v : 20);
+        }();
+        ::signal(SIGALRM, on_alarm);
+        ::alarm(secs);
+    }
+    ~Watchdog() {
+        ::alarm(0);
+    }
+};
+
 static void run_case(const json& c) {
+    const Watchdog watchdog;
     const std::string kind = c.at("kind").get<std::string>();
     const std::string dir = c.at("lib").get<std::string>();
     const oio::file_compression comp = kind.compare(0, 2, "gz") == 0 ? oio::file_compression::gzip : oio::file_compression::bzip2;
